@@ -88,6 +88,61 @@ theorem on_curve (h1 : y1 ^ 2 = x1 ^ 3 + a * x1 + b) (h2 : y2 ^ 2 = x2 ^ 3 + a *
   simp only [X3, Y3, Z3]
   linear_combination (-a^6*y1 - 2*a^6*y2 - a^5*x1^2*y1 - 2*a^5*x1^2*y2 + 17*a^5*x1*x2*y1 - 5*a^5*x1*x2*y2 - 16*a^5*x2^2*y1 - 11*a^5*x2^2*y2 + 18*a^4*b*x1*y1 - 54*a^4*b*x2*y1 - 36*a^4*b*x2*y2 + 144*a^4*x1^3*x2*y1 + 87*a^4*x1^3*x2*y2 + 48*a^4*x1^2*x2^2*y1 - 30*a^4*x1^2*x2^2*y2 + 3*a^4*x1*x2^3*y1 - 3*a^4*x1*x2^3*y2 - 2*a^4*x1*y1^2*y2 - 29*a^4*x1*y1*y2^2 - 15*a^4*x1*y2^3 - 15*a^4*x2^4*y1 - 9*a^4*x2^4*y2 - 45*a^4*x2*y1^3 - 46*a^4*x2*y1^2*y2 - 16*a^4*x2*y1*y2^2 - 3*a^4*x2*y2^3 - 54*a^3*b^2*y1 - 54*a^3*b^2*y2 + 144*a^3*b*x1^3*y1 + 90*a^3*b*x1^3*y2 - 72*a^3*b*x1^2*x2*y1 - 108*a^3*b*x1^2*x2*y2 - 108*a^3*b*x1*x2^2*y1 - 45*a^3*b*x1*x2^2*y2 - 72*a^3*b*x2^3*y1 - 45*a^3*b*x2^3*y2 - 45*a^3*b*y1^3 - 45*a^3*b*y1^2*y2 + 9*a^3*b*y1*y2^2 + 9*a^3*b*y2^3 + 378*a^3*x1^5*x2*y1 + 270*a^3*x1^5*x2*y2 + 297*a^3*x1^4*x2^2*y1 + 108*a^3*x1^4*x2^2*y2 + 360*a^3*x1^3*x2^3*y1 + 216*a^3*x1^3*x2^3*y2 - 144*a^3*x1^3*y1*y2^2 - 91*a^3*x1^3*y2^3 + 135*a^3*x1^2*x2^4*y1 + 36*a^3*x1^2*x2^4*y2 - 333*a^3*x1^2*x2*y1^3 - 162*a^3*x1^2*x2*y1^2*y2 - 30*a^3*x1^2*x2*y1*y2^2 + 18*a^3*x1*x2^5*y1 + 18*a^3*x1*x2^5*y2 + 54*a^3*x1*x2^2*y1^3 + 84*a^3*x1*x2^2*y1^2*y2 + 18*a^3*x1*x2^2*y1*y2^2 - 6*a^3*x1*x2^2*y2^3 - 63*a^3*x2^3*y1^3 - 39*a^3*x2^3*y1^2*y2 - 6*a^3*x2^3*y1*y2^2 - 2*a^3*x2^3*y2^3 + 44*a^3*y1^3*y2^2 + 34*a^3*y1^2*y2^3 + 6*a^3*y1*y2^4 - 135*a^2*b^2*x1^2*y1 - 108*a^2*b^2*x1^2*y2 - 108*a^2*b^2*x1*x2*y1 - 189*a^2*b^2*x1*x2*y2 - 189*a^2*b^2*x2^2*y1 - 135*a^2*b^2*x2^2*y2 + 378*a^2*b*x1^5*y1 + 270*a^2*b*x1^5*y2 + 54*a^2*b*x1^4*x2*y1 - 54*a^2*b*x1^4*x2*y2 + 135*a^2*b*x1^3*x2^2*y1 + 243*a^2*b*x1^3*x2^2*y2 + 108*a^2*b*x1^2*x2^3*y1 + 189*a^2*b*x1^2*x2^3*y2 - 333*a^2*b*x1^2*y1^3 - 162*a^2*b*x1^2*y1^2*y2 + 153*a^2*b*x1^2*y1*y2^2 + 90*a^2*b*x1^2*y2^3 + 81*a^2*b*x1*x2^4*y1 + 108*a^2*b*x1*x2^4*y2 + 270*a^2*b*x1*x2*y1^3 + 216*a^2*b*x1*x2*y1^2*y2 + 162*a^2*b*x1*x2*y1*y2^2 + 54*a^2*b*x1*x2*y2^3 - 126*a^2*b*x2^2*y1^3 - 36*a^2*b*x2^2*y1^2*y2 + 54*a^2*b*x2^2*y1*y2^2 + 18*a^2*b*x2^2*y2^3 + 486*a^2*x1^7*x2*y1 + 405*a^2*x1^7*x2*y2 + 567*a^2*x1^6*x2^2*y1 + 162*a^2*x1^6*x2^2*y2 + 702*a^2*x1^5*x2^3*y1 + 432*a^2*x1^5*x2^3*y2 - 378*a^2*x1^5*y1*y2^2 - 270*a^2*x1^5*y2^3 + 378*a^2*x1^4*x2^4*y1 + 108*a^2*x1^4*x2^4*y2 - 891*a^2*x1^4*x2*y1^3 - 621*a^2*x1^4*x2*y1^2*y2 - 270*a^2*x1^4*x2*y1*y2^2 - 108*a^2*x1^4*x2*y2^3 + 216*a^2*x1^3*x2^5*y1 + 81*a^2*x1^3*x2^5*y2 - 324*a^2*x1^3*x2^2*y1^3 + 216*a^2*x1^3*x2^2*y1^2*y2 - 162*a^2*x1^3*x2^2*y1*y2^2 - 117*a^2*x1^3*x2^2*y2^3 + 54*a^2*x1^2*x2^6*y1 - 333*a^2*x1^2*x2^3*y1^3 - 243*a^2*x1^2*x2^3*y1^2*y2 - 90*a^2*x1^2*x2^3*y1*y2^2 - 18*a^2*x1^2*x2^3*y2^3 + 333*a^2*x1^2*y1^3*y2^2 + 162*a^2*x1^2*y1^2*y2^3 - 24*a^2*x1^2*y1*y2^4 + 54*a^2*x1*x2^4*y1^3 + 54*a^2*x1*x2^4*y1^2*y2 + 432*a^2*x1*x2*y1^5 + 324*a^2*x1*x2*y1^4*y2 + 18*a^2*x1*x2*y1^3*y2^2 - 87*a^2*x1*x2*y1^2*y2^3 - 36*a^2*x1*x2*y1*y2^4 - 18*a^2*x2^5*y1^3 - 9*a^2*x2^5*y1^2*y2 - 108*a^2*x2^2*y1^5 - 72*a^2*x2^2*y1^4*y2 - 3*a^2*x2^2*y1^2*y2^3 - 3*a^2*x2^2*y1*y2^4 - 81*a*b^3*x1*y2 - 324*a*b^3*x2*y1 - 243*a*b^3*x2*y2 - 243*a*b^2*x1^4*y1 - 162*a*b^2*x1^4*y2 + 162*a*b^2*x1^3*x2*y1 + 324*a*b^2*x1^3*x2*y2 + 567*a*b^2*x1^2*x2^2*y1 + 324*a*b^2*x1^2*x2^2*y2 + 324*a*b^2*x1*x2^3*y1 + 324*a*b^2*x1*x2^3*y2 + 216*a*b^2*x1*y1^3 + 108*a*b^2*x1*y1^2*y2 - 54*a*b^2*x1*y1*y2^2 - 27*a*b^2*x1*y2^3 - 324*a*b^2*x2*y1^3 - 297*a*b^2*x2*y1^2*y2 - 54*a*b^2*x2*y1*y2^2 + 486*a*b*x1^7*y1 + 405*a*b*x1^7*y2 + 324*a*b*x1^6*x2*y1 - 81*a*b*x1^6*x2*y2 - 162*a*b*x1^5*x2^2*y1 - 81*a*b*x1^5*x2^2*y2 - 648*a*b*x1^4*x2^3*y1 - 405*a*b*x1^4*x2^3*y2 - 891*a*b*x1^4*y1^3 - 621*a*b*x1^4*y1^2*y2 + 270*a*b*x1^4*y1*y2^2 + 162*a*b*x1^4*y2^3 - 324*a*b*x1^3*x2^4*y1 - 81*a*b*x1^3*x2^4*y2 + 108*a*b*x1^3*x2*y1^3 + 540*a*b*x1^3*x2*y1^2*y2 + 54*a*b*x1^3*x2*y1*y2^2 - 81*a*b*x1^3*x2*y2^3 - 81*a*b*x1^2*x2^5*y2 + 324*a*b*x1^2*x2^2*y1^3 - 324*a*b*x1^2*x2^2*y1^2*y2 - 324*a*b*x1^2*x2^2*y1*y2^2 - 81*a*b*x1^2*x2^2*y2^3 + 216*a*b*x1*x2^3*y1^3 - 162*a*b*x1*x2^3*y1*y2^2 - 27*a*b*x1*x2^3*y2^3 + 432*a*b*x1*y1^5 + 324*a*b*x1*y1^4*y2 - 144*a*b*x1*y1^3*y2^2 - 117*a*b*x1*y1^2*y2^3 - 18*a*b*x1*y1*y2^4 - 108*a*b*x2^4*y1^3 - 108*a*b*x2^4*y1^2*y2 - 27*a*b*x2^4*y1*y2^2 - 324*a*b*x2*y1^5 - 288*a*b*x2*y1^4*y2 + 18*a*b*x2*y1^3*y2^2 + 45*a*b*x2*y1^2*y2^3 + 243*a*x1^9*x2*y1 + 243*a*x1^9*x2*y2 + 486*a*x1^8*x2^2*y1 + 243*a*x1^8*x2^2*y2 + 972*a*x1^7*x2^3*y1 + 648*a*x1^7*x2^3*y2 - 486*a*x1^7*y1*y2^2 - 405*a*x1^7*y2^3 + 810*a*x1^6*x2^4*y1 + 162*a*x1^6*x2^4*y2 - 675*a*x1^6*x2*y1^3 - 567*a*x1^6*x2*y1^2*y2 - 486*a*x1^6*x2*y1*y2^2 - 162*a*x1^6*x2*y2^3 + 324*a*x1^5*x2^5*y1 + 162*a*x1^5*x2^5*y2 - 810*a*x1^5*x2^2*y1^3 - 162*a*x1^5*x2^2*y1*y2^2 - 162*a*x1^5*x2^2*y2^3 + 81*a*x1^4*x2^6*y1 - 1377*a*x1^4*x2^3*y1^3 - 783*a*x1^4*x2^3*y1^2*y2 - 54*a*x1^4*x2^3*y1*y2^2 + 891*a*x1^4*y1^3*y2^2 + 621*a*x1^4*y1^2*y2^3 - 27*a*x1^4*y1*y2^4 - 540*a*x1^3*x2^4*y1^3 + 216*a*x1^3*x2^4*y1^2*y2 + 54*a*x1^3*x2^4*y1*y2^2 + 648*a*x1^3*x2*y1^5 + 540*a*x1^3*x2*y1^4*y2 + 324*a*x1^3*x2*y1^3*y2^2 - 189*a*x1^3*x2*y1^2*y2^3 - 54*a*x1^3*x2*y1*y2^4 - 81*a*x1^2*x2^5*y1^2*y2 + 324*a*x1^2*x2^2*y1^5 - 216*a*x1^2*x2^2*y1^4*y2 - 108*a*x1^2*x2^2*y1^3*y2^2 + 81*a*x1^2*x2^2*y1^2*y2^3 + 9*a*x1^2*x2^2*y1*y2^4 + 432*a*x1*x2^3*y1^5 + 324*a*x1*x2^3*y1^4*y2 + 72*a*x1*x2^3*y1^3*y2^2 + 9*a*x1*x2^3*y1^2*y2^3 - 432*a*x1*y1^5*y2^2 - 324*a*x1*y1^4*y2^3 - 72*a*x1*y1^3*y2^4 - 3*a*x1*y1^2*y2^5 - 108*a*x2^4*y1^5 - 72*a*x2^4*y1^4*y2 - 9*a*x2^4*y1^3*y2^2 - 216*a*x2*y1^7 - 216*a*x2*y1^6*y2 + 36*a*x2*y1^5*y2^2 + 63*a*x2*y1^4*y2^3 + 12*a*x2*y1^3*y2^4 - 243*b^4*y1 - 243*b^4*y2 + 243*b^3*x1^3*y1 + 243*b^3*x1^3*y2 + 486*b^3*x1^2*x2*y1 + 243*b^3*x1^2*x2*y2 + 243*b^3*x1*x2^2*y1 + 486*b^3*x1*x2^2*y2 - 216*b^3*y1^3 - 243*b^3*y1^2*y2 + 27*b^3*y2^3 - 243*b^2*x1^6*y1 - 243*b^2*x1^6*y2 - 486*b^2*x1^5*x2*y1 - 243*b^2*x1^5*x2*y2 - 486*b^2*x1^4*x2^2*y1 - 243*b^2*x1^4*x2^2*y2 + 432*b^2*x1^3*y1^3 + 324*b^2*x1^3*y1^2*y2 - 324*b^2*x1^3*y1*y2^2 - 243*b^2*x1^3*y2^3 + 243*b^2*x1^2*x2^4*y1 - 243*b^2*x1^2*x2^4*y2 + 324*b^2*x1^2*x2*y1^3 - 243*b^2*x1^2*x2*y1^2*y2 - 648*b^2*x1^2*x2*y1*y2^2 - 243*b^2*x1^2*x2*y2^3 - 162*b^2*x1*x2^2*y1^2*y2 - 486*b^2*x1*x2^2*y1*y2^2 - 162*b^2*x1*x2^2*y2^3 - 216*b^2*x2^3*y1^3 - 324*b^2*x2^3*y1^2*y2 - 162*b^2*x2^3*y1*y2^2 - 27*b^2*x2^3*y2^3 - 216*b^2*y1^5 - 216*b^2*y1^4*y2 + 135*b^2*y1^3*y2^2 + 162*b^2*y1^2*y2^3 + 27*b^2*y1*y2^4 + 243*b*x1^9*y1 + 243*b*x1^9*y2 + 486*b*x1^8*x2*y1 + 243*b*x1^8*x2*y2 + 486*b*x1^7*x2^2*y1 + 243*b*x1^7*x2^2*y2 - 243*b*x1^6*x2^3*y2 - 675*b*x1^6*y1^3 - 567*b*x1^6*y1^2*y2 + 324*b*x1^6*y1*y2^2 + 243*b*x1^6*y2^3 - 486*b*x1^5*x2^4*y1 - 243*b*x1^5*x2^4*y2 - 810*b*x1^5*x2*y1^3 + 648*b*x1^5*x2*y1*y2^2 + 243*b*x1^5*x2*y2^3 - 486*b*x1^4*x2^5*y1 - 243*b*x1^4*x2^5*y2 - 486*b*x1^4*x2^2*y1^3 - 162*b*x1^4*x2^2*y1^2*y2 + 486*b*x1^4*x2^2*y1*y2^2 + 243*b*x1^4*x2^2*y2^3 - 243*b*x1^3*x2^6*y1 + 216*b*x1^3*x2^3*y1^3 + 324*b*x1^3*x2^3*y1^2*y2 + 162*b*x1^3*x2^3*y1*y2^2 + 27*b*x1^3*x2^3*y2^3 + 648*b*x1^3*y1^5 + 540*b*x1^3*y1^4*y2 - 432*b*x1^3*y1^3*y2^2 - 297*b*x1^3*y1^2*y2^3 + 81*b*x1^3*y1*y2^4 + 324*b*x1^2*x2^4*y1^3 - 243*b*x1^2*x2^4*y1^2*y2 - 81*b*x1^2*x2^4*y1*y2^2 + 324*b*x1^2*x2*y1^5 - 216*b*x1^2*x2*y1^4*y2 - 432*b*x1^2*x2*y1^3*y2^2 + 243*b*x1^2*x2*y1^2*y2^3 + 162*b*x1^2*x2*y1*y2^4 + 54*b*x1*x2^2*y1^2*y2^3 + 27*b*x1*x2^2*y1*y2^4 - 216*b*x2^3*y1^5 - 216*b*x2^3*y1^4*y2 - 54*b*x2^3*y1^3*y2^2 - 216*b*y1^7 - 216*b*y1^6*y2 + 144*b*y1^5*y2^2 + 207*b*y1^4*y2^3 + 72*b*y1^3*y2^4 + 9*b*y1^2*y2^5 + 243*x1^9*x2^3*y1 + 243*x1^9*x2^3*y2 - 243*x1^9*y1*y2^2 - 243*x1^9*y2^3 + 486*x1^8*x2^4*y1 + 243*x1^8*x2^4*y2 - 486*x1^8*x2*y1*y2^2 - 243*x1^8*x2*y2^3 + 486*x1^7*x2^5*y1 + 243*x1^7*x2^5*y2 - 486*x1^7*x2^2*y1*y2^2 - 243*x1^7*x2^2*y2^3 + 243*x1^6*x2^6*y1 - 675*x1^6*x2^3*y1^3 - 567*x1^6*x2^3*y1^2*y2 - 162*x1^6*x2^3*y1*y2^2 + 675*x1^6*y1^3*y2^2 + 567*x1^6*y1^2*y2^3 - 81*x1^6*y1*y2^4 - 810*x1^5*x2^4*y1^3 + 162*x1^5*x2^4*y1*y2^2 + 810*x1^5*x2*y1^3*y2^2 - 162*x1^5*x2*y1*y2^4 - 486*x1^4*x2^5*y1^3 - 162*x1^4*x2^5*y1^2*y2 + 486*x1^4*x2^2*y1^3*y2^2 + 162*x1^4*x2^2*y1^2*y2^3 - 216*x1^3*x2^6*y1^3 + 648*x1^3*x2^3*y1^5 + 540*x1^3*x2^3*y1^4*y2 + 216*x1^3*x2^3*y1^3*y2^2 + 27*x1^3*x2^3*y1^2*y2^3 - 648*x1^3*y1^5*y2^2 - 540*x1^3*y1^4*y2^3 - 27*x1^3*y1^2*y2^5 + 324*x1^2*x2^4*y1^5 - 216*x1^2*x2^4*y1^4*y2 - 108*x1^2*x2^4*y1^3*y2^2 - 324*x1^2*x2*y1^5*y2^2 + 216*x1^2*x2*y1^4*y2^3 + 108*x1^2*x2*y1^3*y2^4 - 216*x2^3*y1^7 - 216*x2^3*y1^6*y2 - 72*x2^3*y1^5*y2^2 - 9*x2^3*y1^4*y2^3 + 216*y1^7*y2^2 + 216*y1^6*y2^3 + 72*y1^5*y2^4 + 9*y1^4*y2^5 + y1^3*y2^6) * h1 + (-2*a^6*y1 - 29*a^5*x1^2*y1 - 5*a^5*x1*x2*y1 - 2*a^5*x2^2*y1 - 171*a^4*x1^4*y1 - 66*a^4*x1^3*x2*y1 - 30*a^4*x1^2*x2^2*y1 - 3*a^4*x1*x2^3*y1 + 60*a^4*x1*y1^3 - 15*a^4*x2*y1^3 - 522*a^3*x1^6*y1 - 342*a^3*x1^5*x2*y1 - 180*a^3*x1^4*x2^2*y1 - 36*a^3*x1^3*x2^3*y1 + 520*a^3*x1^3*y1^3 + 3*a^3*x1^2*x2*y1^3 + 18*a^3*x1*x2^2*y1^3 - a^3*x2^3*y1^3 - 45*a^3*y1^5 - 864*a^2*x1^8*y1 - 864*a^2*x1^7*x2*y1 - 540*a^2*x1^6*x2^2*y1 - 162*a^2*x1^5*x2^3*y1 + 1602*a^2*x1^5*y1^3 + 567*a^2*x1^4*x2*y1^3 + 216*a^2*x1^3*x2^2*y1^3 + 45*a^2*x1^2*x2^3*y1^3 - 765*a^2*x1^2*y1^5 + 162*a^2*x1*x2*y1^5 - 18*a^2*x2^2*y1^5 - 729*a*x1^10*y1 - 1053*a*x1^9*x2*y1 - 810*a*x1^8*x2^2*y1 - 324*a*x1^7*x2^3*y1 + 2052*a*x1^7*y1^3 + 1701*a*x1^6*x2*y1^3 + 810*a*x1^5*x2^2*y1^3 + 297*a*x1^4*x2^3*y1^3 - 1971*a*x1^4*y1^5 - 540*a*x1^3*x2*y1^5 + 648*a*x1*y1^7 - 108*a*x2*y1^7 - 243*x1^12*y1 - 486*x1^11*x2*y1 - 486*x1^10*x2^2*y1 - 243*x1^9*x2^3*y1 + 918*x1^9*y1^3 + 1296*x1^8*x2*y1^3 + 972*x1^7*x2^2*y1^3 + 459*x1^6*x2^3*y1^3 - 1323*x1^6*y1^5 - 1134*x1^5*x2*y1^5 - 486*x1^4*x2^2*y1^5 - 216*x1^3*x2^3*y1^5 + 864*x1^3*y1^7 + 324*x1^2*x2*y1^7 - 216*y1^9 + y2^3*(-a^3*y1^2 - 9*a^2*x1^2*y1^2 - 27*a*x1^4*y1^2 + 12*a*x1*y1^4 - 27*x1^6*y1^2 + 36*x1^3*y1^4 - 8*y1^6) + y2^2*(-a^4*x1*y1 - 2*a^4*x2*y1 - 12*a^3*x1^3*y1 - 24*a^3*x1^2*x2*y1 - 11*a^3*y1^3 - 54*a^2*x1^5*y1 - 108*a^2*x1^4*x2*y1 - 57*a^2*x1^2*y1^3 + 30*a^2*x1*x2*y1^3 - 108*a*x1^7*y1 - 216*a*x1^6*x2*y1 - 45*a*x1^4*y1^3 + 180*a*x1^3*x2*y1^3 + 144*a*x1*y1^5 - 12*a*x2*y1^5 - 81*x1^9*y1 - 162*x1^8*x2*y1 + 81*x1^6*y1^3 + 270*x1^5*x2*y1^3 + 72*x1^3*y1^5 - 108*x1^2*x2*y1^5 - 72*y1^7) + y2*(-a^6 - 16*a^5*x1^2 - a^5*x1*x2 - a^5*x2^2 - 105*a^4*x1^4 - 15*a^4*x1^3*x2 - 15*a^4*x1^2*x2^2 + 29*a^4*x1*y1^2 - 11*a^4*x2*y1^2 - 360*a^3*x1^6 - 90*a^3*x1^5*x2 - 90*a^3*x1^4*x2^2 + 291*a^3*x1^3*y1^2 - 90*a^3*x1^2*x2*y1^2 + 15*a^3*x1*x2^2*y1^2 - 39*a^3*y1^4 - 675*a^2*x1^8 - 270*a^2*x1^7*x2 - 270*a^2*x1^6*x2^2 + 1053*a^2*x1^5*y1^2 - 216*a^2*x1^4*x2*y1^2 + 135*a^2*x1^3*x2^2*y1^2 - 489*a^2*x1^2*y1^4 + 144*a^2*x1*x2*y1^4 - 6*a^2*x2^2*y1^4 - 648*a*x1^10 - 405*a*x1^9*x2 - 405*a*x1^8*x2^2 + 1593*a*x1^7*y1^2 - 54*a*x1^6*x2*y1^2 + 405*a*x1^5*x2^2*y1^2 - 1485*a*x1^4*y1^4 + 504*a*x1^3*x2*y1^4 - 72*a*x1^2*x2^2*y1^4 + 540*a*x1*y1^6 - 72*a*x2*y1^6 - 243*x1^12 - 243*x1^11*x2 - 243*x1^10*x2^2 + 810*x1^9*y1^2 + 243*x1^8*x2*y1^2 + 405*x1^7*x2^2*y1^2 - 1107*x1^6*y1^4 + 216*x1^5*x2*y1^4 - 162*x1^4*x2^2*y1^4 + 756*x1^3*y1^6 - 216*x1^2*x2*y1^6 - 216*y1^8)) * h2
 
+/-! ### completeness (Renes–Costello–Batina, Bosma–Lenstra): the exceptional pairs of the formulas are
+those whose DIFFERENCE has `y = 0`.  Instead of `linear_combination` certificates the curve
+coefficients are eliminated: two points with different `x` determine `a` and `b`, one point
+determines `b`; what remains is an identity of rational functions (`field_simp; ring`). -/
+
+theorem coeffs_of_points (h1 : y1 ^ 2 = x1 ^ 3 + a * x1 + b) (h2 : y2 ^ 2 = x2 ^ 3 + a * x2 + b) (hx : x1 ≠ x2) :
+    a = ((y2 ^ 2 - y1 ^ 2) - (x2 ^ 3 - x1 ^ 3)) / (x2 - x1) ∧ b = y1 ^ 2 - x1 ^ 3 - a * x1 := by
+  have hd : x2 - x1 ≠ 0 := sub_ne_zero.mpr (Ne.symm hx)
+  refine ⟨?_, by linear_combination (-1 : F) * h1⟩
+  rw [eq_div_iff hd]
+  linear_combination h1 - h2
+
+/-- `Z₃` of the complete sum `P + Q` is `(x₂−x₁)³` times the `y`-coordinate of `P − Q` -/
+theorem z3_eq_y_diff (h1 : y1 ^ 2 = x1 ^ 3 + a * x1 + b) (h2 : y2 ^ 2 = x2 ^ 3 + a * x2 + b) (hx : x1 ≠ x2) :
+    Z3 a (3 * b) x1 y1 1 x2 y2 1 =
+      (((-y2 - y1) / (x2 - x1)) * (x1 - (((-y2 - y1) / (x2 - x1)) ^ 2 - x1 - x2)) - y1) * (x2 - x1) ^ 3 := by
+  have hd : x2 - x1 ≠ 0 := sub_ne_zero.mpr (Ne.symm hx)
+  obtain ⟨ha, hb⟩ := coeffs_of_points h1 h2 hx
+  clear h1 h2
+  subst hb
+  subst ha
+  simp only [Z3]
+  field_simp
+  ring
+
+/-- the chord through `P` and `−Q` meets the curve in `P − Q` -/
+theorem chord_closure (h1 : y1 ^ 2 = x1 ^ 3 + a * x1 + b) (h2 : y2 ^ 2 = x2 ^ 3 + a * x2 + b) (hx : x1 ≠ x2) :
+    (((-y2 - y1) / (x2 - x1)) * (x1 - (((-y2 - y1) / (x2 - x1)) ^ 2 - x1 - x2)) - y1) ^ 2 =
+      (((-y2 - y1) / (x2 - x1)) ^ 2 - x1 - x2) ^ 3 + a * (((-y2 - y1) / (x2 - x1)) ^ 2 - x1 - x2) + b := by
+  have hd : x2 - x1 ≠ 0 := sub_ne_zero.mpr (Ne.symm hx)
+  obtain ⟨ha, hb⟩ := coeffs_of_points h1 h2 hx
+  clear h1 h2
+  subst hb
+  subst ha
+  field_simp
+  ring
+
+theorem y3_neg_eq_y_double (h1 : y1 ^ 2 = x1 ^ 3 + a * x1 + b) (hy : y1 ≠ 0) (h2 : (2 : F) ≠ 0) :
+    Y3 a (3 * b) x1 y1 1 x1 (-y1) 1 =
+      (((3 * x1 ^ 2 + a) / (2 * y1)) * (x1 - (((3 * x1 ^ 2 + a) / (2 * y1)) ^ 2 - 2 * x1)) - y1) * (2 * y1) ^ 3 := by
+  have hb : b = y1 ^ 2 - x1 ^ 3 - a * x1 := by linear_combination (-1 : F) * h1
+  clear h1
+  subst hb
+  simp only [Y3]
+  field_simp
+  ring
+
+theorem tangent_closure (h1 : y1 ^ 2 = x1 ^ 3 + a * x1 + b) (hy : y1 ≠ 0) (h2 : (2 : F) ≠ 0) :
+    (((3 * x1 ^ 2 + a) / (2 * y1)) * (x1 - (((3 * x1 ^ 2 + a) / (2 * y1)) ^ 2 - 2 * x1)) - y1) ^ 2 =
+      (((3 * x1 ^ 2 + a) / (2 * y1)) ^ 2 - 2 * x1) ^ 3 + a * (((3 * x1 ^ 2 + a) / (2 * y1)) ^ 2 - 2 * x1) + b := by
+  have hb : b = y1 ^ 2 - x1 ^ 3 - a * x1 := by linear_combination (-1 : F) * h1
+  clear h1
+  subst hb
+  field_simp
+  ring
 end affine
 
 end BronVerif.Lemmas.Weierstrass
